@@ -28,7 +28,7 @@ ASSUMPTIONS = ["values are float32-exact dyadics so that a float32 carrier is th
 EXHAUSTIVE_ALL = False
 
 DATA_CARRIERS = ["list-none", "tuple-none", "list-nan", "tuple-nan", "f32", "object", "masked-finite", "masked-nan",
-                 "series", "series-shifted", "dask", "int", "int16", "uint8", "int32", "int8", "f16", "masked-fill-is-a-value"]
+                 "series", "series-shifted", "dask", "int", "int16", "uint8", "int32", "int8", "f16", "masked-fill-is-a-value", "dask-irregular"]
 TIME_CARRIERS = [c for c in gen.TIME_CARRIERS if c != "dt64ns"]
 REVERSE_SPANS = False  # toggled per logical case by run()
 T0F = float(gen.T0)
@@ -76,6 +76,14 @@ def dcar(x, how, poison=1.0):
         import dask.array as da
 
         return da.from_array(gen.arr(x), chunks=max(1, len(x) // 2))
+    if how == "dask-irregular":
+        import dask.array as da
+
+        a_ = gen.arr(x)
+        if len(x) < 4:
+            return None
+        cuts = (1, len(x) - 3, 2) if len(x) >= 6 else (1, len(x) - 1)  # blocks of unequal sizes, the small ones at the ends
+        return da.from_array(a_, chunks=(cuts,))
     if how == "int":
         if has_missing or any(v != int(v) for v in x):
             return None
